@@ -456,8 +456,26 @@ def check(run: Run) -> None:
         if len(writes) != 1 or not writes[0][1].endswith("Impl::Impl"):
             run.finding("C07.j", "live_seeded:writers", f"live_seeded must be set exactly once, in the constructor of the wiring: {[(w[1], w[3]) for w in writes]}", loc=GW)
 
+    with run.obligation("C07.k", "K8", "the process-wide type-record registry (every value / time-series / node / graph / executor / clock type is interned through it, also from "
+                        "executors that build their types concurrently) touches its map only under its mutex: every access of m_entries in a TypeRecordRegistry method "
+                        "- the HIT path of intern() included: an unordered_map lookup races with a concurrent insertion's rehash - lies inside a lock_guard(m_mutex) scope"):
+        TRR = "src/hgraph/types/metadata/type_record_registry.cpp"
+        n_acc = 0
+        for fd_ in run.tree.file(TRR).funcs:
+            if fd_.body is None or fd_.cls != "TypeRecordRegistry" or "m_entries" not in run.tree.file(TRR).text(fd_.body[0], fd_.body[1]):
+                continue
+            fa_ = R.parse(run, fd_)
+            for node_, fld_, held_ in R.lock_accesses(fa_, r"m_mutex", ["m_entries"]):
+                n_acc += 1
+                run.count(1, "C07.k")
+                if not held_:
+                    run.finding("C07.k", f"TypeRecordRegistry::{fd_.name}:m_entries-outside-lock", f"TypeRecordRegistry::{fd_.name} reads or writes m_entries without holding m_mutex: "
+                                "a lookup that runs while another thread registers a new record walks a hash table that is being rehashed", loc=fa_.loc(node_))
+        run.sites(n_acc, 6, "m_entries accesses")
+
 
 VARIANTS = [
+    {"id": "k-seed-C07-7-intern-hit-path-before-lock", "expect": "C07.k", "edits": [{"file": "src/hgraph/types/metadata/type_record_registry.cpp", "find": "        validate(definition);\n\n        std::lock_guard lock(m_mutex);\n        if (const auto found = m_entries.find(definition.key); found != m_entries.end())", "replace": "        validate(definition);\n\n        if (const auto found = m_entries.find(definition.key); found != m_entries.end())"}]},
     {"id": "h-seed-C07-6-injected-scheduler-supports-wall-clock-in-simulation", "expect": "C07.h", "edits": [{"file": "include/hgraph/types/static_node.h", "find": "                const bool supports_wall_clock = executor.valid() &&\n                                                 executor.schema()->mode == GraphExecutorMode::RealTime;", "replace": "                const bool supports_wall_clock = executor.valid() && view.evaluation_clock().valid();"}]},
     {"id": "j-seed-C07-5-global-state-ignores-live-seeded", "expect": "C07.j", "edits": [{"file": "src/hgraph/types/graph_wiring.cpp", "find": "  if (impl_->kind == WiringKind::TopLevel && impl_->live_seeded) {\n    if (GlobalState *state = GlobalContext::active_state()) {", "replace": "  if (impl_->kind == WiringKind::TopLevel) {\n    if (GlobalState *state = GlobalContext::active_state()) {"}]},
     {"id": "j-finish-ignores-live-seeded", "expect": "C07.j", "edits": [{"file": "src/hgraph/types/graph_wiring.cpp", "find": "  GlobalState *live = impl_->kind == WiringKind::TopLevel && impl_->live_seeded\n", "replace": "  GlobalState *live = impl_->kind == WiringKind::TopLevel\n"}]},
